@@ -21,6 +21,7 @@ ASSUMPTIONS = [
     "the decimal stratum allows 1e-9*(1+|opt|) on objective and optimality (DESIGN 2.5)",
     "solvor.utils.helpers.assignment_cost (anchored helper) must agree with the sum of the chosen entries of the returned assignment",
 ]
+QUICK_SCALE = 2.5  # quick-tier multiplier (idle 16-core timing: ~10 s at scale 1)
 STRATA = [
     ("square", 2500, 50000),
     ("wide", 1500, 30000),
